@@ -23,6 +23,7 @@ CONSTANTS Prefix,      \* prefixes
                        \* across the route-server boundary): like the observer's own routes they are never sent to it
           Cls,         \* attribute classes (exported content)
           Reject,      \* classes the export policy rejects
+          RejectSrc,   \* sources whose routes the export policy rejects (an RPKI condition: their routes validate Invalid)
           SendMax,     \* 1 = plain session, >1 = add-path TX window
           MaxChan,     \* bound on undelivered notifications (state constraint)
           OpKinds,     \* optional operation kinds explored ("filter")
@@ -212,7 +213,7 @@ SoftIn(st, ps, src) ==
 
 Hidden == {Obs} \cup Suppress
 Visible(st, paths) == SelectSeq(paths, LAMBDA x : x.src \notin Hidden)
-Accepted(x) == x.cls \notin Reject
+Accepted(x) == x.cls \notin Reject /\ x.src \notin RejectSrc
 Take(q, n) == IF Len(q) <= n THEN q ELSE SubSeq(q, 1, n)
 
 \* Export-map / pending-map key.  The implementation keys by destination id (cheap to hash);
